@@ -1,5 +1,12 @@
 package main
 
-import "go/token"
+import (
+	"fmt"
+	"go/token"
+)
+
+var fmtSprintf = fmt.Sprintf
 
 type tokenPos = token.Pos
+
+func sprintf(f string, a ...interface{}) string { return fmtSprintf(f, a...) }
